@@ -273,7 +273,9 @@ type Req struct {
 	BodyStr string            `json:"body,omitempty"`      // Body for the record
 	Slow    bool              `json:"slow_body,omitempty"` // the body arrives in small slices with a yield in between
 	Hdr     map[string]string `json:"hdr,omitempty"`
-	Class   string            `json:"class,omitempty"` // how the generator made it (hit, near:<mutation>, adv)
+	// More holds further field values of a header AFTER its first one (the framework reads the first field)
+	More  map[string][]string `json:"more_header_fields,omitempty"`
+	Class string              `json:"class,omitempty"` // how the generator made it (hit, near:<mutation>, adv)
 }
 
 func (r Req) Cond(name string) bool { return r.Hdr[name] == "1" }
